@@ -76,12 +76,14 @@ type Contract struct {
 	Results  []string
 	Requires []*Clause
 	Ensures  []*Clause
+	Exits    []*Clause // "exit [label] E": proved at every return like a postcondition, with the function's locals visible; NOT part of what callers may assume
 	Modifies []*Clause
 	Loops    map[int][]*Clause // invariant / decreases per loop ordinal
 	Panics   []*Clause         // "never" or "when E"
 	Trusted  bool              // assumed, never verified
 	Inline   bool              // callers inline the body instead of using the contract
 	NoFrame  bool              // do not generate frame obligations
+	GoJoin   string            // "gojoin because R": goroutines spawned by the function are joined before it uses their effects (it ranges over a channel the goroutine closes): a go statement is executed as a call at the spawn point (assumption, listed)
 	Props    []string          // properties this contract serves
 	Witness  map[string]map[string]Expr // clause label -> bound variable -> witness expression
 	Skips    []SkipClause
@@ -595,7 +597,7 @@ func (p *parser) primary() Expr {
 var clauseKeywords = map[string]bool{
 	"func": true, "pure": true, "ghost": true, "requires": true, "ensures": true,
 	"modifies": true, "loop": true, "panics": true, "trusted": true, "lemma": true,
-	"axiom": true, "inline": true, "returns": true, "props": true, "noframe": true,
+	"axiom": true, "inline": true, "returns": true, "props": true, "noframe": true, "gojoin": true, "exit": true,
 	"K": true, "F": true, "guarded": true, "hyp": true, "concl": true, "vars": true,
 	"opaque": true, "uninterp": true, "witness": true, "skip": true, "callback": true, "invokes": true, "params": true, "callsite": true,
 }
@@ -721,7 +723,12 @@ func readSpecFile(path string) (*SpecFile, error) {
 				return nil, fail(rl, "noframe outside func")
 			}
 			cur.NoFrame = true
-		case "requires", "ensures", "modifies":
+		case "gojoin":
+			if cur == nil || !strings.HasPrefix(rest, "because ") {
+				return nil, fail(rl, "gojoin because <reason> (inside a func block)")
+			}
+			cur.GoJoin = strings.TrimPrefix(rest, "because ")
+		case "requires", "ensures", "modifies", "exit":
 			if cur == nil {
 				return nil, fail(rl, "%s outside func", kw)
 			}
@@ -730,6 +737,8 @@ func readSpecFile(path string) (*SpecFile, error) {
 				return nil, err
 			}
 			switch kw {
+			case "exit":
+				cur.Exits = append(cur.Exits, c)
 			case "requires":
 				cur.Requires = append(cur.Requires, c)
 			case "ensures":
